@@ -390,7 +390,15 @@ func genHandle(r *rand.Rand, thorough bool, emit func(c, cat string)) {
 				p := fmt.Sprintf("r%d.", k)
 				rcode := []int{0, 0, 0, 3, 2, 5}[r.Intn(6)]
 				toks = append(toks, fmt.Sprintf("%sh=%d,1,0,%d,0,1,1,%d,0,%d", p, r.Intn(65536), r.Intn(2), r.Intn(2), rcode))
-				switch r.Intn(10) {
+				switch r.Intn(12) {
+				case 10: // the query's name with one more label at the end (the query name is a proper prefix of it)
+					toks = append(toks, fmt.Sprintf("%sq=%s,%d,%d", p, hexs(append([]byte(lq), 3, 'l', 'a', 'n')), qtype, qclass))
+				case 11: // the query's name without its first label (a proper suffix), or the root
+					rest := []byte(lq)
+					if len(rest) > 0 {
+						rest = rest[1+int(rest[0]):]
+					}
+					toks = append(toks, fmt.Sprintf("%sq=%s,%d,%d", p, hexs(rest), qtype, qclass))
 				case 0: // no question
 				case 1: // different question
 					toks = append(toks, fmt.Sprintf("%sq=%s,%d,%d", p, hexs(wireLabels([]byte("evil"), []byte("example"))), qtype, qclass))
